@@ -53,6 +53,53 @@ CLAIMS = {
         "DESIGN.md C17"),
 }
 
+CLAIMS.update({
+    "C02": (
+        "Panic-freedom obligations (Kani instruments every reachable panic, overflow, out-of-bounds index, unwrap on None) for run-time kernels fed "
+        "arbitrary, including physically impossible, pre-states: switch evaluation at every expression shape up to the stated size and at the maximum "
+        "nesting depth the parser accepts, opcode decoding, one-shot ring overflow, tap-dance with an empty action list (accepted by the parser).",
+        "Every harness of every other property is also a panic-freedom obligation for the code it reaches; only the dedicated ones are run here. "
+        "Hangs, stack depth and the parser front end are not decided. Arithmetic overflow is checked under dev-profile semantics.",
+        "DESIGN.md C02"),
+    "C04": (
+        "Layer search order (current_layer, active_held_layers, trans_resolution_layer_order) and transparent resolution (resolve_coord) against the "
+        "documented order for symbolic held-layer sets, base layers, both resolution settings and delegation on/off; release-by-coordinate step (shared with C01).",
+        "Read-only kernels on a Layout with 4 symbolic states / a 4-layer symbolic table. The press path through do_action and the FIFO/tick orchestration are outside "
+        "(CBMC does not finish them).",
+        "DESIGN.md C04"),
+    "C07": (
+        "Chords-v2 half of the idle predicate only: from a state satisfying is_idle_chv2() && accepts_chords_chv2() (the conjuncts Kanata::can_block_update_idle_waiting checks), "
+        "with every other field symbolic, one tick_chv2 forwards nothing and stays idle.",
+        "The keyberon Layout::tick half and the kanata half (tick_states, wall-clock conversion, the threaded loop) are NOT decided: tick() from a symbolic idle state did not finish "
+        "within the caps (DESIGN.md section 1). This is a partial claim for one clause.",
+        "DESIGN.md C07"),
+    "C08": (
+        "One macro step per tick: process_sequences from a state with one active macro (symbolic pending delay, symbolically chosen next item) performs exactly one of "
+        "delay countdown / tapped-key release / one list item; press adds exactly its key, release removes exactly the macro-held instances of its key, complete ends, finished macros are not re-queued.",
+        "Macro expansion in the parser, cancellation via do_action and the 4-slot ring eviction (see known findings) are outside.",
+        "DESIGN.md C08"),
+    "C11": (
+        "For every u16: OsCode::from_u16/as_u16 are inverse, the transmute to the internal KeyCode yields a declared variant with the same numeric value (checked with "
+        "-Z valid-value-checks) and converts back to the same OsCode; modifier classification is exactly the 8 modifier codes.",
+        "Linux tables (this sandbox's target). Key names (str_to_oscode), the defsrc identity layer, the ignored output range and the mapped-key set are outside.",
+        "DESIGN.md C11"),
+    "C12": (
+        "Only the modifier/overlap bit encoding used for sequence keys: masks never touch the key-code bits, classes have distinct single bits, every key code fits below them "
+        "(for every pair of OS codes).",
+        "The ambiguity rejection (patricia trie) and the run-time sequence state machine are NOT decided (heap-bound / need a Kanata value); partial claim for the encoding lemma.",
+        "DESIGN.md C12"),
+    "C13": (
+        "mask_for_key is injective on the 8 modifiers (every pair of OS codes); mark_overridden_nonmodkeys_for_eager_erasure marks exactly the NormalKey states of removed "
+        "non-modifier keys, for symbolic removed sets and states.",
+        "The key-list transformation override_keys/update_keys (FxHashMap + Vec) did not finish under CBMC (measured) and is NOT decided; partial claim.",
+        "DESIGN.md C13"),
+    "C18": (
+        "handle_fakekey_action for press / release / tap / toggle on a Layout with symbolic states: queues exactly the documented events; toggle = release iff a state "
+        "created at the virtual key's coordinate exists (states_has_coord vs its definition).",
+        "Timed forms (hold-for-duration, on-idle) and the TCP path need a Kanata value and are outside.",
+        "DESIGN.md C18"),
+})
+
 NOT_APPLICABLE = {
     "C15": "live reload is file I/O + the whole parser on two configurations + TCP notifications + a relational comparison of two whole executions; no bounded kernel of it can be encoded for CBMC (DESIGN.md 'Not applicable')",
     "C16": "a relation between two complete parses of two program texts; the parser (heap, Rc<str>, hash maps) cannot be executed symbolically within reach (measured: sexpr::parse on 4 symbolic bytes does not finish in 25 min) and running it on concrete rewritten texts would be testing, not solver-based checking",
